@@ -81,6 +81,14 @@ M = [
  ('dm2numpy-order', 'casadi_helpers.py', "def DM2numpy(dm, expr_shape, tdim=None):", "def DM2numpy(dm, expr_shape, tdim=None):\n    if tdim and expr_shape[0]>1 and expr_shape[1]>1:\n        import numpy as _np\n        return _np.array(dm).reshape((expr_shape[0], tdim, expr_shape[1]), order='F').transpose((1,2,0))", ['C07']),
  ('root-sample-z', 'sampling_method.py', "                                                               z=self.zr[k][i][:,j] if self.zk else nan,", "                                                               z=self.zr[k][i][:,0] if self.zk else nan,", ['C02']),
  ('value-eval-T', 'sampling_method.py', "                                                               t0=stage.t0,\n                                                               T=stage.T))", "                                                               t0=stage.T,\n                                                               T=stage.T))", ['C07']),
+ # --- C08
+ ('rk-poly-f2', 'sampling_method.py', "        f2 = 4/DT**2*(k3[\"ode\"]-k2[\"ode\"])/6\n        f3 = 4*(k4[\"ode\"]-2*k3[\"ode\"]+k1[\"ode\"])/DT**3/24\n        poly_coeff = hcat([X, f0, f1, f2, f3])", "        f2 = 4/DT**2*(k3[\"ode\"]-k2[\"ode\"])/3\n        f3 = 4*(k4[\"ode\"]-2*k3[\"ode\"]+k1[\"ode\"])/DT**3/24\n        poly_coeff = hcat([X, f0, f1, f2, f3])", ['C08']),
+ ('fine-local-time', 'stage.py', "            dt = (time[k+1]-time[k])/M\n            tlocal = linspace(MX(0), dt, refine + 1)", "            dt = (time[-1]-time[0])/N/M\n            tlocal = linspace(MX(0), dt, refine + 1)", ['C08']),
+ ('fine-coeff-index', 'stage.py', "coeff = None if stage._method.poly_coeff is None else stage._method.poly_coeff[k * M + l]", "coeff = None if stage._method.poly_coeff is None else stage._method.poly_coeff[k * M]", ['C08']),
+ ('sampler-coeff-slice', 'stage.py', "        coeff = coeffs[:,(i*s+DM(range(s)).T)]", "        coeff = coeffs[:,(i*s+DM(range(s)).T)[::-1]] if False else coeffs[:,(min(i+1,len(self._method.poly_coeff)-1)*s+DM(range(s)).T)]", ['C08']),
+ ('sampler-local-time', 'stage.py', "        tlocal = t-ti\n", "        tlocal = t-time[k*M]\n", ['C08']),
+ ('dc-poly-scale', 'direct_collocation.py', "            S = 1/repmat(hcat([dt**i for i in range(self.degree + 1)]), self.degree + 1, 1)", "            S = 1/repmat(hcat([(dt*self.M)**i for i in range(self.degree + 1)]), self.degree + 1, 1)", ['C08']),
+ ('euler-poly', 'sampling_method.py', '        poly_coeff = hcat([X, k["ode"]])', '        poly_coeff = hcat([X, k["ode"]*DT/DT_control])', ['C08']),
 ]
 
 def main():
